@@ -371,6 +371,46 @@ theorem rewrite_wellformed_mysql_bin (types : List Nat) (f : Nat → Bytes → B
   cases this
   rfl
 
+/-! ## no panics (the modelled readers and rewriters, whatever the input; collected into C14 by the lead) -/
+
+open AcraModel.Wire.Pg in
+/-- **PostgreSQL framing never panics.** Whatever bytes arrive (any length field, also smaller than the
+field itself; truncated streams), `readGeneralPacket`, `ReadPacket`, `readStartupPacket` return a packet
+or an error. (True since the `fix:` that rejects negative data lengths; before it `Grow` panicked.) -/
+theorem pg_read_no_panic (started : Bool) (s : Bytes) :
+    readClient started s ≠ .panic ∧ readGeneral s ≠ .panic ∧ readStartup s ≠ .panic ∧ readDb s ≠ .panic :=
+  ⟨readClient_no_panic started s, readGeneral_no_panic s, readStartup_no_panic s, readDb_no_panic s⟩
+
+open AcraModel.Wire.Pg in
+/-- **DataRow parsing and rewriting never panic**, whatever the body, the result formats and the
+(non-panicking) subscribers. -/
+theorem pg_row_no_panic (g : Nat → Bytes → Out Bytes) (hg : ∀ i d, g i d ≠ .panic) (fmts : List Nat) (p : Packet) :
+    parseColumns p.body fmts ≠ .panic ∧ rewriteRow g fmts p ≠ .panic :=
+  ⟨parseColumns_no_panic p.body fmts, rewriteRow_no_panic g fmts p hg⟩
+
+open AcraModel.Wire.Pg in
+/-- **Parse and Bind handling never panics**, whatever the packet body (truncated parameter counts, parameter
+lists shorter than announced, missing terminators …) and the (non-panicking) observers. -/
+theorem pg_parse_bind_no_panic (g : Nat → Bool → Option Bytes → Out (Option Bytes)) (hg : ∀ i b v, g i b v ≠ .panic)
+    (data q : Bytes) (p : Packet) :
+    newParsePacket data ≠ .panic ∧ replaceParseQuery p q ≠ .panic ∧
+    newBindPacket data ≠ .panic ∧ rewriteBind g p ≠ .panic :=
+  ⟨newParsePacket_no_panic data, replaceParseQuery_no_panic p q, newBindPacket_no_panic data, rewriteBind_no_panic g hg p⟩
+
+open AcraModel.Wire.My in
+/-- **MySQL framing never panics** (`readPacket` over any stream, `replaceQuery` on any payload), and
+`readPacket` terminates: it is defined by well-founded recursion on the bytes left. -/
+theorem mysql_read_no_panic (s q : Bytes) (p : Packet) :
+    readPacket s ≠ .panic ∧ read s ≠ .panic ∧ replaceQuery p q ≠ .panic :=
+  ⟨readPacket_no_panic s, read_no_panic s, replaceQuery_no_panic p q⟩
+
+open AcraModel.Wire.My in
+/-- **MySQL row processing never panics**, for any row bytes (truncated values, short NULL bitmaps, declared
+lengths beyond the row), any field list and any (non-panicking) subscribers. -/
+theorem mysql_row_no_panic (g : Nat → Bytes → Out Bytes) (hg : ∀ i v, g i v ≠ .panic) (n : Nat) (types : List Nat) (row : Bytes) :
+    textRow g n row ≠ .panic ∧ binRow g types row ≠ .panic :=
+  ⟨textRow_no_panic g hg n row, binRow_no_panic g hg types row⟩
+
 /-! ## part 4 — bytea text codecs -/
 
 open AcraModel.Wire.Bytea in
